@@ -191,7 +191,7 @@ int main()
   resetAll();
   while(hxRead(l))
   {
-    alarm(20); // an op that does not return within 20 s kills the run: a result attributed to this line
+    alarm(60); // an op that does not return within 60 s kills the run: a result attributed to this line
     {
     int v = 0, w = 0, w2 = 0;
     unsigned c = 0, c2 = 0;
